@@ -48,6 +48,7 @@ type vzAdv struct {
 	advSigning    bool         // set while an adversarial injection is being built
 	byzUsed       map[int]bool // validators whose keys have signed outside the honest script
 	signedFor     map[string]map[int]map[string]bool
+	byzDust       bool // validators 3.. are Byzantine dust (power profile 4)
 	lastInc       int
 	resendPending bool
 	crashEnum     bool
@@ -312,6 +313,11 @@ func (a *vzAdv) honestVote() bool {
 				return false
 			}
 		}
+	}
+	if a.byzDust && j >= 3 && a.plan == 1 && len(a.phs) > 1 {
+		// Byzantine dust: votes for the other proposal, against every rule, with no power to matter
+		hash = string(a.phs[1].Header.Hash)
+		a.markByz(a.h, j)
 	}
 	if a.voted[kind][hash] == nil {
 		a.voted[kind][hash] = map[int]bool{}
@@ -795,9 +801,29 @@ func (a *vzAdv) injectReplay() {
 	for k, v := range ch.Proof.Proofs {
 		proof.Proofs[k] = append([]gcrypto.SparseSignature(nil), v...)
 	}
-	kind := s.Choose("replay-kind", 6)
+	kind := s.Choose("replay-kind", 7)
 	desc, expect := "genuine committed header", "valid-replay"
 	switch kind {
+	case 6: // genuine header, validator list and hashes; only the redundant PubKeys slice names foreign keys, which sign the certificate
+		vs := hdr.ValidatorSet
+		vs.PubKeys = append([]gcrypto.PubKey(nil), a.foreignVals.PubKeys...)
+		if len(vs.PubKeys) > len(vs.Validators) {
+			vs.PubKeys = vs.PubKeys[:len(vs.Validators)]
+		}
+		if len(vs.PubKeys) < len(vs.Validators) {
+			return
+		}
+		hdr.ValidatorSet = vs
+		proof = tmconsensus.CommitProof{Round: ch.Proof.Round, PubKeyHash: ch.Proof.PubKeyHash, Proofs: map[string][]gcrypto.SparseSignature{}}
+		sb, _ := tmconsensus.PrecommitSignBytes(tmconsensus.VoteTarget{Height: h, Round: proof.Round, BlockHash: string(hdr.Hash)}, w.fx.SignatureScheme)
+		for i, k := range a.foreignKeys {
+			if i >= len(vs.PubKeys) {
+				break
+			}
+			sg, _ := k.Sign(context.Background(), sb)
+			proof.Proofs[string(hdr.Hash)] = append(proof.Proofs[string(hdr.Hash)], gcrypto.SparseSignature{KeyID: vzKeyID(i), Sig: sg})
+		}
+		desc, expect = "genuine header whose PubKeys slice (not covered by any hash) names foreign keys that sign the certificate", "foreign-replay"
 	case 5: // the genuine header and certificate, but a validator list altered in transit (hashes intact)
 		if s.Pct("replay-tamper-next", 60) {
 			nvs := hdr.NextValidatorSet
@@ -1056,7 +1082,15 @@ func runNode(s *vsimcore.Sim, p vsimcore.Params) vsimcore.RunInfo {
 		cfg.initialHeight = uint64(2 + s.Choose("ih", 40))
 	}
 	cfg.powers = make([]uint64, cfg.nVal)
-	switch s.Choose("powers", 4) {
+	byzDust := false
+	switch s.Choose("powers", 5) {
+	case 4:
+		// two heavy honest validators decide everything; the node is light; the remaining validators are
+		// dust and, in half of these runs, Byzantine (below one third of the power by a wide margin):
+		// they precommit another proposal than the honest ones
+		cfg.nVal = 6
+		cfg.powers = []uint64{10, 50, 30, 3, 3, 3}
+		byzDust = s.Pct("byz-dust", 50)
 	case 3:
 		// one validator with negligible power: it can dissent, stay silent or lag without ever deciding anything
 		for i := range cfg.powers {
@@ -1107,6 +1141,7 @@ func runNode(s *vsimcore.Sim, p vsimcore.Params) vsimcore.RunInfo {
 	adv.budget = []int{8, 30, 100, 400}[s.Choose("adv-budget", 4)]
 	adv.doubleQuorum = s.Pct("adv-double-quorum", 12)
 	adv.crashEnum = crashEnum
+	adv.byzDust = byzDust
 	// a self-consistent validator set of keys that are not validators
 	fv := w.foreignPrivVals(cfg.nVal)
 	adv.foreignVals, _ = tmconsensus.NewValidatorSet(fv.Vals(), w.fx.HashScheme)
